@@ -348,6 +348,16 @@ func rtSentinel(a *aggregator, v *rtView) {
 		}
 	}
 	o := "every path through reset recomputes p.buffer from []rune(p.Buffer), leaves endSymbol as its last element and copies it to the captured buffer"
+	if len(bad) > 0 && nPaths > 0 {
+		// reset is written in another way than the path rule knows: its effect is evaluated instead
+		if sb, und, n := bufferSemantics(v); und == "" && len(sb) == 0 && n > 10 {
+			a.OK("R-sentinel", "Init/reset re-establishes the sentinel", cfg, v.in.srcPos(reset.Pos()),
+				fmt.Sprintf("the conversion is not the plain []rune(p.Buffer)+append form; decided by R-buffer-semantics: %d evaluated states of Init and reset leave []rune(Buffer)+endSymbol in both places", n))
+			return
+		} else if und == "" && len(sb) > 0 {
+			bad = append(sb, bad...)
+		}
+	}
 	a.Decide(len(bad) == 0 && nPaths > 0, "R-sentinel", "Init/reset re-establishes the sentinel", cfg, v.in.srcPos(reset.Pos()),
 		fmt.Sprintf("%d path(s): %s", nPaths, o), strings.Join(bad, "; "))
 }
